@@ -32,6 +32,17 @@ func main() {
 		{"imap/uid_validity_generator.go", map[string]string{`"sync/atomic"`: `atomic "` + mod + `vatomic"`, `"time"`: `time "` + mod + `vtime"`}},
 	}
 	replace := map[string]string{}
+	// an outer overlay (VERIF_OVERLAY) replaces files of /repo: read the sources through it and keep its entries
+	outer := map[string]string{}
+	if ov := os.Getenv("VERIF_OVERLAY"); ov != "" {
+		var o struct{ Replace map[string]string }
+		if b, err := os.ReadFile(ov); err == nil && json.Unmarshal(b, &o) == nil {
+			outer = o.Replace
+		}
+	}
+	for k, v := range outer {
+		replace[k] = v
+	}
 	_ = os.RemoveAll(out)
 	for _, pkg := range []string{"sched", "vsync", "vatomic", "vtime"} {
 		files, _ := filepath.Glob(filepath.Join(verif, "shim", pkg, "*.go"))
@@ -51,7 +62,11 @@ func main() {
 		replace[dst] = f
 	}
 	for _, t := range targets {
-		src, err := os.ReadFile(filepath.Join(repo, t.File))
+		srcPath := filepath.Join(repo, t.File)
+		if r, ok := outer[srcPath]; ok {
+			srcPath = r
+		}
+		src, err := os.ReadFile(srcPath)
 		if err != nil {
 			fmt.Fprintln(os.Stderr, err)
 			os.Exit(1)
